@@ -196,6 +196,11 @@ func runC18(c *mon.Ctx) {
 	msgCols := make([]collected, G)
 	kinds := []string{"authn-nosig", "authn-doc", "logoutreq-nosig", "logoutreq", "logoutresp-nosig", "logoutresp", "auth-redirect", "auth-redirect"}
 	var kindCount [8]atomic.Int64
+	// one provider that all goroutines build on at the same time (an application has one provider per IdP, not per request)
+	sharedKSP := NewKeyedSP(now, KeyCfg{EncField: true, SignSetter: true})
+	sharedKSP.SP.SignAuthnRequests = true
+	sharedKSP.Clk.Wobble.Store(true)
+	sharedKSP.SP.SigningContext()
 	for g := 0; g < G; g++ {
 		wg.Add(1)
 		go func(g int) {
@@ -216,6 +221,9 @@ func runC18(c *mon.Ctx) {
 					}
 				}
 				sp := ksp.SP
+				if (i/G)%3 == 2 {
+					sp = sharedKSP.SP
+				}
 				ki := (i / G) % len(kinds)
 				if ki < 6 && ki%2 == 1 && i%8 != 1 {
 					ki-- // signed variants are 1 in 8 (cost)
@@ -246,10 +254,14 @@ func runC18(c *mon.Ctx) {
 					req.Header.Set("Cookie", "session="+rid+"; saml_request_id="+rid)
 					req.Header.Set("User-Agent", rid)
 					rec := httptest.NewRecorder()
-					wasSigning := sp.SignAuthnRequests
-					sp.SignAuthnRequests = false // redirect binding without query signature: the cheap path
-					err = sp.AuthRedirect(rec, req, "relay-"+rid)
-					sp.SignAuthnRequests = wasSigning
+					if sp == sharedKSP.SP {
+						err = sp.AuthRedirect(rec, req, "relay-"+rid) // configuration of the shared provider is never touched
+					} else {
+						wasSigning := sp.SignAuthnRequests
+						sp.SignAuthnRequests = false // redirect binding without query signature: the cheap path
+						err = sp.AuthRedirect(rec, req, "relay-"+rid)
+						sp.SignAuthnRequests = wasSigning
+					}
 					if err == nil {
 						doc, err = docFromRedirect(rec.Header().Get("Location"))
 					}
